@@ -160,6 +160,25 @@ class Lib:
         bodyz = z3.And(to_z3(rng), to_z3(body))
         return z3.Exists([v], bodyz)
 
+    def _quant_int(self, ex, node, st, universal):
+        lam = node.args[0]
+        names = [a.arg for a in lam.args.args]
+        vs = [z3.Int(uid(n)) for n in names]
+        s2 = st.fork()
+        for n, v in zip(names, vs):
+            s2.locals[n] = v
+        body = lam.body
+        # forall_int(lambda s: implies(A, B)): evaluate B under A so that guarded reads are fine
+        bz = to_z3(ex.truth(ex.eval(body, s2)))
+        _carry(st, s2)
+        return z3.ForAll(vs, bz) if universal else z3.Exists(vs, bz)
+
+    def sf_forall_int(self, ex, node, st):
+        return self._quant_int(ex, node, st, True)
+
+    def sf_exists_int(self, ex, node, st):
+        return self._quant_int(ex, node, st, False)
+
     def sf_forall(self, ex, node, st):
         return self._quant(ex, node, st, True)
 
